@@ -275,3 +275,299 @@ Proof.
   destruct (sites_contains s fts ce f ft pcfg [] Hin H1 H2 H3 H4 H5) as (l & Hl & Hft).
   eapply sites_run_spec; eauto.
 Qed.
+
+(* ---- no edge is left at a block that leaves the module ---- *)
+Lemma fold_retarget_In nb (b : nat) l : forall c x,
+  (forall e, In e l -> nid (tgt e) = b) -> nid nb <> b ->
+  (In x (fold_left (fun c e => cfg_update_edge c e (retarget_edge e nb)) l c) <->
+   (In x c /\ ~ In x l) \/ (exists e, In e l /\ x = retarget_edge e nb)).
+Proof.
+  induction l as [|e l IH]; intros c x Hl Hnb; cbn [fold_left In].
+  - split; [intros H; left; tauto|intros [(H & _)|(e & [] & _)]; exact H].
+  - rewrite IH by (auto; intros e' He'; apply Hl; right; exact He').
+    unfold cfg_update_edge, cfg_add, cfg_discard. rewrite es_add_In, es_discard_In.
+    assert (Hre : forall e', In e' (e :: l) -> retarget_edge e nb <> e').
+    { intros e' He' Heq. apply Hnb. rewrite <- (Hl e' He'), <- Heq. reflexivity. }
+    split.
+    + intros [(AB & C)|(e' & He' & ->)].
+      * destruct AB as [A|(A & B)].
+        -- right. exists e. split; [left; reflexivity|exact A].
+        -- left. split; [exact A|]. intros [D|D]; [congruence|contradiction].
+      * right. exists e'. split; [right; exact He'|reflexivity].
+    + intros [(A & B)|(e' & He' & ->)].
+      * left. split; [right; split; [exact A|intros ->; apply B; left; reflexivity]|intros D; apply B; right; exact D].
+      * destruct He' as [<-|He'].
+        -- left. split; [left; reflexivity|]. intros D. apply (Hre (retarget_edge e nb)); [right; exact D|reflexivity].
+        -- right. exists e'. split; [exact He'|reflexivity].
+Qed.
+
+Lemma cfg_remove_function_block_aux s b : cfg (remove_function_block_aux s b) = cfg s.
+Proof. pose proof (agree_remove_function_block_aux m_cfg s s b eq_refl (agree_refl _ _)) as (B & _). exact (B FCfg eq_refl). Qed.
+
+(* join_blocks on code blocks: whatever the shape of the CFG, afterwards no edge starts or ends at block2, and every edge of the
+   result either was there before or is an edge of block2 moved to block1 *)
+Theorem join_cfg_leaves_no_edge_at_block2 s b1 b2 zero1 :
+  b1 <> b2 ->
+  forall x, In x (cfg (join_cfg s b1 b2 true zero1)) ->
+    nid (src x) <> b2 /\ nid (tgt x) <> b2 /\
+    (In x (cfg s) \/ exists e, In e (cfg s) /\ (nid (src e) = b2 \/ nid (tgt e) = b2) /\
+                               label x = label e /\ (src x = src e \/ src x = NB b1) /\ (tgt x = tgt e \/ tgt x = NB b1)).
+Proof.
+  intros Hne x. unfold join_cfg.
+  set (falls := zero1 || existsb (fun e => is_ft e && node_eqb (src e) (NB b1)) (in_edges s b2)).
+  set (keep_out := negb (bsize (the_blk s b2) =? 0) || falls).
+  set (s1 := fold_left (fun s0 e => if is_ft e && node_eqb (src e) (NB b1) then set_cfg s0 (cfg_discard e (cfg s0)) else s0) (in_edges s b2) s).
+  assert (C1 : forall y, In y (cfg s1) -> In y (cfg s)).
+  { intros y. subst s1. rewrite (cfg_fold_if (fun e => is_ft e && node_eqb (src e) (NB b1)) (fun c e => cfg_discard e c)).
+    generalize (in_edges s b2) (cfg s). induction l as [|e l IH]; intros c; cbn [fold_left]; [auto|].
+    intros H. apply IH in H. destruct (is_ft e && node_eqb (src e) (NB b1)); [unfold cfg_discard in H; apply es_discard_In in H; tauto|exact H]. }
+  set (s2 := if zero1 then fold_left (fun s0 e => set_cfg s0 (cfg_update_edge (cfg s0) e (retarget_edge e (NB b1)))) (in_edges s1 b2) s1
+             else fold_left (fun s0 e => set_cfg s0 (cfg_discard e (cfg s0))) (in_edges s1 b2) s1).
+  assert (C2 : forall y, In y (cfg s2) -> nid (tgt y) <> b2 /\
+                (In y (cfg s1) \/ exists e, In e (cfg s1) /\ nid (tgt e) = b2 /\ y = retarget_edge e (NB b1))).
+  { intros y. subst s2. destruct zero1.
+    - rewrite (cfg_fold (fun c e => cfg_update_edge c e (retarget_edge e (NB b1)))).
+      rewrite (fold_retarget_In (NB b1) b2) by (auto; intros e He; apply in_edges_In in He; tauto).
+      intros [(A & B)|(e & He & ->)].
+      + split; [intros X; apply B, in_edges_In; auto|left; exact A].
+      + apply in_edges_In in He. split; [cbn; exact Hne|right; exists e; tauto].
+    - rewrite (cfg_fold (fun c e => cfg_discard e c)). rewrite fold_discard_In. intros (A & B).
+      split; [intros X; apply B, in_edges_In; auto|left; exact A]. }
+  set (s3 := fold_left (fun s0 e => if keep_out then set_cfg s0 (cfg_update_edge (cfg s0) e (resource_edge e (NB b1)))
+                                    else set_cfg s0 (cfg_discard e (cfg s0))) (out_edges s2 b2) s2).
+  assert (C3 : forall y, In y (cfg s3) -> nid (src y) <> b2 /\
+                (In y (cfg s2) \/ exists e, In e (cfg s2) /\ nid (src e) = b2 /\ y = resource_edge e (NB b1))).
+  { intros y. subst s3. destruct keep_out.
+    - rewrite (cfg_fold (fun c e => cfg_update_edge c e (resource_edge e (NB b1)))).
+      rewrite (fold_resource_In (NB b1) b2) by (auto; intros e He; apply out_edges_In in He; tauto).
+      intros [(A & B)|(e & He & ->)].
+      + split; [intros X; apply B, out_edges_In; auto|left; exact A].
+      + apply out_edges_In in He. split; [cbn; exact Hne|right; exists e; tauto].
+    - rewrite (cfg_fold (fun c e => cfg_discard e c)). rewrite fold_discard_In. intros (A & B).
+      split; [intros X; apply B, out_edges_In; auto|left; exact A]. }
+  intros Hx. change (In x (cfg (remove_function_block_aux s3 b2))) in Hx. rewrite cfg_remove_function_block_aux in Hx.
+  destruct (C3 x Hx) as (S3 & [H2|(e & He & Hs & ->)]).
+  - destruct (C2 x H2) as (T2 & [H1|(e & He & Ht & ->)]).
+    + split; [exact S3|]. split; [exact T2|]. left. apply C1, H1.
+    + split; [exact S3|]. split; [exact T2|]. right. exists e. split; [apply C1, He|]. cbn. tauto.
+  - destruct (C2 e He) as (T2 & [H1|(e0 & He0 & Ht & ->)]).
+    + split; [cbn; exact Hne|]. split; [cbn; exact T2|]. right. exists e. split; [apply C1, H1|]. cbn. tauto.
+    + split; [cbn; exact Hne|]. split; [cbn; exact Hne|]. right. exists e0. split; [apply C1, He0|]. cbn. tauto.
+Qed.
+
+(* ---- remove_block: nothing is left at the removed block ---- *)
+Lemma cfg_of_agree s0 s : agree m_cfg s0 s -> cfg s = cfg s0.
+Proof. intros (B & _). pose proof (B FCfg eq_refl) as H. cbn [proj_eq] in H. exact H. Qed.
+
+(* _retarget_incoming_edges: afterwards no edge ends at b; every edge is an old one or an old in-edge with a new target *)
+Lemma retarget_incoming_spec s b target x :
+  is_code s b = true -> (b < next s)%nat -> (forall t, target = Some t -> nid t <> b) ->
+  In x (cfg (retarget_incoming_edges s b target)) ->
+  nid (tgt x) <> b /\ (In x (cfg s) \/ exists e t, In e (cfg s) /\ nid (tgt e) = b /\ x = retarget_edge e t) /\
+  (next s <= next (retarget_incoming_edges s b target))%nat.
+Proof.
+  intros Hc Hb Ht. unfold retarget_incoming_edges. rewrite Hc. cbn [negb].
+  destruct (in_edges s b) as [|e0 l0] eqn:Ein.
+  - intros Hx. split; [|split; [left; exact Hx|lia]]. intros X.
+    assert (In x (in_edges s b)) by (apply in_edges_In; auto). rewrite Ein in H. destruct H.
+  - rewrite <- Ein. destruct target as [t|].
+    + rewrite (cfg_fold (fun c e => cfg_update_edge c e (retarget_edge e t))).
+      rewrite (fold_retarget_In t b) by (auto; intros e He; apply in_edges_In in He; tauto).
+      assert (Hn : next (fold_left (fun s0 e => set_cfg s0 (cfg_update_edge (cfg s0) e (retarget_edge e t))) (in_edges s b) s) = next s).
+      { generalize (in_edges s b). intros l. generalize s. clear. induction l as [|e l IH]; intros s; cbn [fold_left]; [reflexivity|]. rewrite IH. reflexivity. }
+      intros [(A & B)|(e & He & ->)].
+      * split; [intros X; apply B, in_edges_In; auto|split; [left; exact A|lia]].
+      * apply in_edges_In in He. split; [cbn; apply Ht; reflexivity|split; [right; exists e, t; tauto|lia]].
+    + unfold fresh. cbn [fst snd].
+      set (s1 := set_proxies (set_next s (S (next s))) (nadd (next s) (proxies (set_next s (S (next s)))))).
+      rewrite (cfg_fold (fun c e => cfg_update_edge c e (retarget_edge e (NP (next s))))).
+      assert (Hn : next (fold_left (fun s0 e => set_cfg s0 (cfg_update_edge (cfg s0) e (retarget_edge e (NP (next s))))) (in_edges s b) s1) = S (next s)).
+      { generalize (in_edges s b). intros l. assert (next s1 = S (next s)) by reflexivity. revert H. generalize s1. clear.
+        induction l as [|e l IH]; intros s1 H; cbn [fold_left]; [exact H|]. apply IH. exact H. }
+      change (cfg s1) with (cfg s).
+      rewrite (fold_retarget_In (NP (next s)) b); [|intros e He; apply in_edges_In in He; tauto|cbn; lia].
+      intros [(A & B)|(e & He & ->)].
+      * split; [intros X; apply B, in_edges_In; auto|split; [left; exact A|lia]].
+      * apply in_edges_In in He. split; [cbn; lia|split; [right; exists e, (NP (next s)); tauto|lia]].
+Qed.
+
+(* remove_return_edges_from_callee adds only Return edges from blocks that had return edges to fresh proxies, and removes edges *)
+Definition rr_step (fts : list nat) (s0 : st) (b0 : nat) : st :=
+  match block_return_edges s0 b0 with
+  | [] => s0
+  | res =>
+      let hit e := nmem (nid (tgt e)) fts && negb (is_proxy (tgt e)) in
+      let s1 := set_cfg s0 (fold_left (fun c e => if hit e then cfg_discard e c else c) res (cfg s0)) in
+      if existsb (fun e => negb (hit e)) res then s1
+      else let '(p, s2) := fresh s1 in
+           set_proxies (set_cfg s2 (cfg_add (mk_edge' (NB b0) (NP p) ET_RETURN) (cfg s2))) (nadd p (proxies s2))
+  end.
+Definition added_ret (s : st) (y : edge) : Prop :=
+  exists b' p, y = mk_edge' (NB b') (NP p) ET_RETURN /\ (next s <= p)%nat /\ has_ret s b'.
+Lemma fold_cond_discard_sub (hit : edge -> bool) : forall l c y, In y (fold_left (fun c e => if hit e then cfg_discard e c else c) l c) -> In y c.
+Proof.
+  induction l as [|e l IH]; intros c y; cbn [fold_left]; [auto|]. intros H. apply IH in H.
+  destruct (hit e); [unfold cfg_discard in H; apply es_discard_In in H; tauto|exact H].
+Qed.
+Lemma rr_step_spec fts s s1 b0 :
+  (next s <= next s1)%nat -> (forall y, In y (cfg s1) -> In y (cfg s) \/ added_ret s y) ->
+  (next s <= next (rr_step fts s1 b0))%nat /\ (forall y, In y (cfg (rr_step fts s1 b0)) -> In y (cfg s) \/ added_ret s y).
+Proof.
+  intros Hn Hy. unfold rr_step. destruct (block_return_edges s1 b0) as [|r0 rs] eqn:Er; [split; assumption|].
+  cbv zeta. match goal with |- context [if ?c then _ else _] => destruct c end.
+  - split; [exact Hn|]. intros y H. cbn [cfg set_cfg] in H. apply fold_cond_discard_sub in H. apply Hy, H.
+  - unfold fresh. cbn [fst snd]. split; [cbn; lia|]. intros y H. cbn [cfg set_proxies set_cfg set_next] in H.
+    unfold cfg_add in H. apply es_add_In in H. destruct H as [->|H]; [|apply fold_cond_discard_sub in H; apply Hy, H].
+    assert (Hr0 : In r0 (block_return_edges s1 b0)) by (rewrite Er; left; reflexivity).
+    apply block_return_edges_In in Hr0. destruct Hr0 as (R1 & R2 & R3).
+    right. exists b0, (next s1). split; [reflexivity|]. split; [exact Hn|].
+    destruct (Hy r0 R1) as [Ho|(b' & p & -> & Hp & Hh)].
+    + exists r0. auto.
+    + cbn in R2. subst b0. exact Hh.
+Qed.
+Lemma remove_return_edges_spec base s ce fts :
+  (next base <= next s)%nat -> (forall y, In y (cfg s) -> In y (cfg base) \/ added_ret base y) ->
+  (next base <= next (remove_return_edges_from_callee s ce fts))%nat /\
+  forall x, In x (cfg (remove_return_edges_from_callee s ce fts)) -> In x (cfg base) \/ added_ret base x.
+Proof.
+  intros Hn Hy. unfold remove_return_edges_from_callee. destruct (is_proxy (tgt ce)); [split; auto|].
+  destruct (aget (nid (tgt ce)) (fbb s)) as [f|]; [|split; auto].
+  change (fold_left _ (func_blocks s f) s) with (fold_left (rr_step fts) (func_blocks s f) s).
+  generalize (func_blocks s f). intros l. revert s Hn Hy.
+  induction l as [|b0 l IH]; intros s1 Hn Hy; cbn [fold_left]; [split; assumption|].
+  destruct (rr_step_spec fts base s1 b0 Hn Hy) as (A & B). apply IH; assumption.
+Qed.
+
+(* _remove_outgoing_edges *)
+Definition ro_step (fts : list nat) (s : st) (e : edge) : st :=
+  let s := if is_call e then remove_return_edges_from_callee s e fts else s in set_cfg s (cfg_discard e (cfg s)).
+Lemma added_ret_lift s s1 y :
+  (next s <= next s1)%nat -> (forall z, In z (cfg s1) -> In z (cfg s) \/ added_ret s z) -> added_ret s1 y -> added_ret s y.
+Proof.
+  intros Hn Hy (b' & p & -> & Hp & (e & He & Hs & Hr)). exists b', p. split; [reflexivity|]. split; [lia|].
+  destruct (Hy e He) as [H|(b'' & p'' & -> & _ & Hh)]; [exists e; auto|]. cbn in Hs. subst b''. exact Hh.
+Qed.
+Lemma remove_outgoing_spec s b :
+  is_code s b = true ->
+  (next s <= next (remove_outgoing_edges s b))%nat /\
+  forall x, In x (cfg (remove_outgoing_edges s b)) ->
+    (In x (cfg s) /\ nid (src x) <> b) \/ (added_ret s x /\ exists e, In e (out_edges s b) /\ is_call e = true).
+Proof.
+  intros Hc. unfold remove_outgoing_edges. rewrite Hc. cbn [negb].
+  change (fold_left _ (out_edges s b) s) with (fold_left (ro_step (fallthrough_targets s b)) (out_edges s b) s).
+  generalize (fallthrough_targets s b). intros fts.
+  set (P := exists e, In e (out_edges s b) /\ is_call e = true).
+  assert (G : forall l s1, incl l (out_edges s b) -> (next s <= next s1)%nat ->
+              (forall y, In y (cfg s1) -> (In y (cfg s) /\ (nid (src y) <> b \/ In y l)) \/ (added_ret s y /\ P)) ->
+              (next s <= next (fold_left (ro_step fts) l s1))%nat /\
+              forall x, In x (cfg (fold_left (ro_step fts) l s1)) -> (In x (cfg s) /\ nid (src x) <> b) \/ (added_ret s x /\ P)).
+  { induction l as [|e l IH]; intros s1 Hl Hn Hy; cbn [fold_left].
+    - split; [exact Hn|]. intros x Hx. destruct (Hy x Hx) as [(A & [B|[]])|A]; auto.
+    - assert (Hy0 : forall y, In y (cfg s1) -> In y (cfg s) \/ added_ret s y) by (intros y H; destruct (Hy y H) as [(A & _)|(A & _)]; auto).
+      unfold ro_step at 2. set (s2 := if is_call e then remove_return_edges_from_callee s1 e fts else s1).
+      assert (H2 : (next s <= next s2)%nat /\ forall y, In y (cfg s2) -> In y (cfg s1) \/ (added_ret s y /\ P)).
+      { unfold s2. destruct (is_call e) eqn:Ec; [|split; auto].
+        destruct (remove_return_edges_spec s1 s1 e fts (Nat.le_refl _) (fun y H => or_introl H)) as (A & B). split; [lia|].
+        intros y H. destruct (B y H) as [C|C]; [left; exact C|right]. split; [eapply added_ret_lift; eauto|].
+        exists e. split; [apply Hl; left; reflexivity|exact Ec]. }
+      destruct H2 as (N2 & Y2). apply IH; [intros z Hz; apply Hl; right; exact Hz|exact N2|].
+      intros y H. cbn [cfg set_cfg] in H. unfold cfg_discard in H. apply es_discard_In in H. destruct H as (H & Hne).
+      destruct (Y2 y H) as [C|C]; [|right; exact C].
+      destruct (Hy y C) as [(A & [B|[B|B]])|A]; [left; auto|congruence|left; auto|right; exact A]. }
+  apply G; [apply incl_refl|lia|]. intros y H. left. split; [exact H|]. destruct (Nat.eq_dec (nid (src y)) b) as [E|E]; [right; apply out_edges_In; auto|left; exact E].
+Qed.
+
+(* has_ret and the call out-edges of b only depend on sources and labels, which retargeting keeps *)
+Lemma retarget_keeps_src_label e t : src (retarget_edge e t) = src e /\ label (retarget_edge e t) = label e.
+Proof. split; reflexivity. Qed.
+
+Lemma is_code_aux s0 s b : aux s0 s -> is_code s b = is_code s0 b.
+Proof. intros (_ & H & _). unfold is_code. rewrite H. reflexivity. Qed.
+
+Theorem remove_block_leaves_no_edge s b tp s' :
+  remove_block s b tp = Ok (true, s') -> is_code s b = true -> (b < next s)%nat ->
+  snd (adjacent_blocks s b) <> Some b ->
+  ((exists e, In e (out_edges s b) /\ is_call e = true) -> ~ has_ret s b) ->
+  forall x, In x (cfg s') -> nid (src x) <> b /\ nid (tgt x) <> b.
+Proof.
+  intros E Hc Hb Hadj Hcr x Hx. unfold remove_block in E.
+  destruct (adjacent_blocks s b) as [prev nxt] eqn:Eadj. cbn [snd] in Hadj.
+  pose proof (agree_remove_make_proxy m_cfg s s tp eq_refl eq_refl (agree_refl _ _)) as A1.
+  pose proof (aux_remove_make_proxy s s tp (aux_refl s)) as X1.
+  assert (Hpx : forall p, fst (remove_make_proxy s tp) = Some p -> p = next s).
+  { unfold remove_make_proxy. destruct tp; cbn; [intros p H; inversion H; reflexivity|discriminate]. }
+  destruct (remove_make_proxy s tp) as [proxy sa] eqn:E1. cbn [snd fst] in A1, X1, Hpx.
+  pose proof (agree_can_remove_block m_cfg s sa b tp prev nxt (required_cfi sa b) eq_refl A1) as A2.
+  pose proof (aux_can_remove_block s sa b tp prev nxt (required_cfi sa b) X1) as X2.
+  destruct (can_remove_block sa b tp prev nxt (required_cfi sa b)) as [can sb] eqn:E2. cbn [snd] in A2, X2.
+  destruct can; [|cbn [bind] in E; inversion E].
+  destruct (remove_redirect sb b proxy prev nxt tp) as [sc|] eqn:E3; cbn [bind] in E; [|discriminate].
+  pose proof (aux_remove_redirect s sb sc b proxy prev nxt tp X2 E3) as X3.
+  (* the CFG of the result is the one remove_outgoing_edges leaves *)
+  assert (Hcfg : cfg s' = cfg (remove_outgoing_edges sc b)).
+  { inversion E as [E']. clear E.
+    set (sd := remove_outgoing_edges sc b).
+    assert (A : agree m_cfg sd (remove_cfi_directives (remove_aux_data_entries sd b) b (required_cfi sa b) prev nxt)).
+    { apply agree_remove_cfi_directives; [reflexivity|]. apply agree_remove_aux_data_entries; [reflexivity|reflexivity|apply agree_refl]. }
+    set (se := remove_cfi_directives (remove_aux_data_entries sd b) b (required_cfi sa b) prev nxt) in *.
+    apply cfg_of_agree in A. rewrite <- A.
+    destruct (block_section se b); reflexivity. }
+  rewrite Hcfg in Hx.
+  (* inside remove_redirect *)
+  unfold remove_redirect in E3.
+  match type of E3 with bind (do_retarget sb b ?T ?AE) _ = _ => destruct (do_retarget sb b T AE) as [sr|] eqn:Er; cbn [bind] in E3; [|discriminate] end.
+  pose proof (agree_do_retarget m_cfg s sb sr b _ _ eq_refl A2 Er) as A3.
+  pose proof (aux_do_retarget s sb sr b _ _ X2 Er) as X4.
+  assert (Hcr' : is_code sr b = true) by (rewrite (is_code_aux s sr b X4); exact Hc).
+  assert (Hbr : (b < next sr)%nat) by (destruct X4 as (_ & _ & N); lia).
+  set (st_ := match proxy with
+              | Some p => retarget_incoming_edges sr b (Some (NP p))
+              | None => match nxt with
+                        | Some n => if is_code sr n then retarget_incoming_edges sr b (Some (NB n)) else retarget_incoming_edges sr b None
+                        | None => retarget_incoming_edges sr b None
+                        end
+              end) in E3.
+  assert (R1 : (next sr <= next st_)%nat /\ forall y, In y (cfg st_) ->
+                 nid (tgt y) <> b /\ (In y (cfg sr) \/ exists e t, In e (cfg sr) /\ nid (tgt e) = b /\ y = retarget_edge e t)).
+  { assert (K : forall target, (forall t, target = Some t -> nid t <> b) ->
+                  (next sr <= next (retarget_incoming_edges sr b target))%nat /\ forall y, In y (cfg (retarget_incoming_edges sr b target)) ->
+                    nid (tgt y) <> b /\ (In y (cfg sr) \/ exists e t, In e (cfg sr) /\ nid (tgt e) = b /\ y = retarget_edge e t)).
+    { intros target Ht. split.
+      - unfold retarget_incoming_edges. rewrite Hcr'. cbn [negb]. destruct (in_edges sr b) as [|e0 l0]; [lia|].
+        destruct target as [t|]; [|unfold fresh; cbn [fst snd]].
+        + generalize (e0 :: l0) sr. induction l as [|e l IH]; intros s1; cbn [fold_left]; [lia|]. specialize (IH (set_cfg s1 (cfg_update_edge (cfg s1) e (retarget_edge e t)))). exact IH.
+        + match goal with |- (_ <= next (fold_left _ _ ?S0))%nat => assert (Hs0 : (next sr <= next S0)%nat) by (cbn; lia); revert Hs0; generalize S0 end.
+          generalize (e0 :: l0). induction l as [|e l IH]; intros s1 H1; cbn [fold_left]; [exact H1|]. apply IH. exact H1.
+      - intros y Hy. destruct (retarget_incoming_spec sr b target y Hcr' Hbr Ht Hy) as (P1 & P2 & _). auto. }
+    unfold st_. destruct proxy as [p|].
+    - apply K. intros t Ht. inversion Ht; subst t. cbn. rewrite (Hpx p eq_refl). lia.
+    - destruct nxt as [n|]; [destruct (is_code sr n)|]; apply K; intros t Ht; try discriminate. inversion Ht; subst t. cbn. intros ->. apply Hadj. reflexivity. }
+  destruct R1 as (N1 & R1).
+  assert (Hsc : cfg sc = cfg st_ /\ (next st_ <= next sc)%nat).
+  { inversion E3 as [E3']. clear E3.
+    set (sf := update_functions_aux_data st_ b (if tp then None else nxt)).
+    assert (A : agree m_cfg st_ sf) by (apply agree_update_functions_aux_data; [reflexivity|apply agree_refl]).
+    assert (X : aux st_ sf) by (apply aux_update_functions_aux_data, aux_refl).
+    split.
+    - apply cfg_of_agree in A. rewrite <- A. destruct (entry sf) as [e|]; [destruct (Nat.eqb e b)|]; reflexivity.
+    - destruct X as (_ & _ & N). destruct (entry sf) as [e|]; [destruct (Nat.eqb e b)|]; cbn; lia. }
+  destruct Hsc as (Csc & Nsc).
+  assert (Hcc : is_code sc b = true) by (rewrite (is_code_aux s sc b X3); exact Hc).
+  destruct (remove_outgoing_spec sc b Hcc) as (_ & R2).
+  assert (Csr : cfg sr = cfg s) by (apply cfg_of_agree; exact A3).
+  (* edges of b in sc come from edges of b in s with the same label *)
+  assert (Hback : forall y, In y (cfg sc) -> exists e, In e (cfg s) /\ src e = src y /\ label e = label y).
+  { intros y Hy. rewrite Csc in Hy. destruct (R1 y Hy) as (_ & [H|(e & t & He & _ & ->)]).
+    - exists y. rewrite <- Csr. auto.
+    - exists e. rewrite <- Csr. auto. }
+  destruct (R2 x Hx) as [(H1 & H2)|(Hadd & (ec & Hec & Hcall))].
+  - split; [exact H2|]. rewrite Csc in H1. apply (R1 x H1).
+  - destruct Hadd as (b' & p & -> & Hp & (er & Her & Hsr & Hret)). cbn [src tgt nid mk_edge'].
+    assert (Hns : (next s <= next sr)%nat) by (destruct X4 as (_ & _ & N); exact N).
+    split; [|cbn; lia].
+    cbn. intros ->.
+    apply Hcr.
+    + apply out_edges_In in Hec. destruct Hec as (Hec1 & Hec2). destruct (Hback ec Hec1) as (e & He & Hs & Hl).
+      exists e. split; [apply out_edges_In; split; [exact He|rewrite Hs; exact Hec2]|]. unfold is_call, etype_is in *. rewrite Hl. exact Hcall.
+    + destruct (Hback er Her) as (e & He & Hs & Hl). exists e. split; [exact He|]. split; [rewrite Hs; exact Hsr|]. unfold is_ret, etype_is in *. rewrite Hl. exact Hret.
+Qed.
